@@ -15,10 +15,17 @@ fn arg(name: &str) -> Option<String> {
     a.iter().position(|x| x == name).and_then(|i| a.get(i + 1).cloned())
 }
 
-async fn run_behaviour<const N: usize>(cfg: HCfg, beh: BehaviourJ, dir: std::path::PathBuf, nkeys: u64) -> Result<(Vec<Mismatch>, Vec<String>), String> {
+async fn run_behaviour<const N: usize>(cfg: HCfg, beh: BehaviourJ, dir: std::path::PathBuf, nkeys: u64, rec: Option<std::sync::Arc<tap::Recorder>>) -> Result<(Vec<Mismatch>, Vec<String>), String> {
     let _ = std::fs::remove_dir_all(&dir);
     std::fs::create_dir_all(&dir).map_err(|e| e.to_string())?;
     let mut d = Driver::<N>::new(cfg, dir.clone(), nkeys);
+    d.rec = rec;
+    d.snapshots_on = std::env::args().any(|a| a == "--snapshots");
+    if let Some(r) = &d.rec {
+        // one execution = one `reset` event: a = dirty-byte limit, ok = strict (quiesced) mode
+        let limit = d.cfg.dirty_limit.unwrap_or(1 << 30) as i64;
+        r.driver_event("reset", "", -1, d.cfg.wait, limit);
+    }
     d.open(false).await?;
     let mut out = Vec::new();
     let mut vid = 0u64;
@@ -33,6 +40,7 @@ async fn run_behaviour<const N: usize>(cfg: HCfg, beh: BehaviourJ, dir: std::pat
             out.push(Mismatch { step: i, action: st.act.a.clone(), kind: format!("ret.{}", st.act.a), expected: json!(st.ret), got: json!(got) });
             break;
         }
+        d.check_snapshots(i, &st.act.a, &mut out);
         let obs = if i + 1 == steps.len() { st.obs.as_ref().or(beh.final_obs.as_ref()) } else { st.obs.as_ref() };
         if let Some(obs) = obs {
             d.compare(i, &st.act.a, obs, &mut out).await;
@@ -43,6 +51,7 @@ async fn run_behaviour<const N: usize>(cfg: HCfg, beh: BehaviourJ, dir: std::pat
     }
     // `close` must return (C13); a failing close is reported like any other mismatch
     if out.is_empty() {
+        d.last_active = -1;
         if let Err(e) = d.shutdown(true).await {
             out.push(Mismatch { step: steps.len(), action: "close".into(), kind: "close".into(), expected: json!("ok"), got: json!(e) });
         }
@@ -63,6 +72,12 @@ fn main() {
     let max_fail: usize = arg("--max-fail").and_then(|s| s.parse().ok()).unwrap_or(20);
     let root = scratch_root().join(format!("replay-{}", std::process::id()));
     let rt = build_runtime(&cfg.rt);
+    // --trace <file>: record every file operation, linearization event and API call of every
+    // behaviour into one NDJSON file (validated afterwards by TLC against TraceIO)
+    let trace_path = arg("--trace");
+    let recorder = trace_path.as_ref().map(|_| { let r = tap::Recorder::new(); r.install(); r });
+    let mut trace_out = trace_path.as_ref().map(|p| std::io::BufWriter::new(std::fs::File::create(p).expect("trace file")));
+    let mut trace_events = 0u64;
     let stdin = std::io::stdin();
     let mut n = 0u64;
     let mut executed = 0u64;
@@ -106,14 +121,15 @@ fn main() {
         let dir = root.join(format!("b{}", executed));
         let cfg2 = cfg.clone();
         let steps2 = beh.clone();
+        let rec2 = recorder.clone();
         let res = rt.block_on(async move {
             let h = tokio::spawn(async move {
                 match cfg2.ks {
-                    1 => run_behaviour::<1>(cfg2, steps2, dir, nkeys).await,
-                    8 => run_behaviour::<8>(cfg2, steps2, dir, nkeys).await,
-                    32 => run_behaviour::<32>(cfg2, steps2, dir, nkeys).await,
-                    1000 => run_behaviour::<1000>(cfg2, steps2, dir, nkeys).await,
-                    _ => run_behaviour::<4>(cfg2, steps2, dir, nkeys).await,
+                    1 => run_behaviour::<1>(cfg2, steps2, dir, nkeys, rec2).await,
+                    8 => run_behaviour::<8>(cfg2, steps2, dir, nkeys, rec2).await,
+                    32 => run_behaviour::<32>(cfg2, steps2, dir, nkeys, rec2).await,
+                    1000 => run_behaviour::<1000>(cfg2, steps2, dir, nkeys, rec2).await,
+                    _ => run_behaviour::<4>(cfg2, steps2, dir, nkeys, rec2).await,
                 }
             });
             h.await
@@ -142,10 +158,17 @@ fn main() {
                 reset_probe_after_dead_worker();
             }
         }
+        if let (Some(r), Some(w)) = (&recorder, trace_out.as_mut()) {
+            use std::io::Write;
+            for e in r.drain() {
+                trace_events += 1;
+                let _ = writeln!(w, "{}", e);
+            }
+        }
         if failed >= max_fail { break; }
     }
     let _ = std::fs::remove_dir_all(&root);
-    println!("RESULT {}", json!({"lines": n, "executed": executed, "distinct": distinct.len(), "steps": steps_total, "failed": failed, "tool_errors": tool_errors, "sample": sample, "actions": action_counts}));
+    println!("RESULT {}", json!({"lines": n, "executed": executed, "distinct": distinct.len(), "steps": steps_total, "failed": failed, "tool_errors": tool_errors, "sample": sample, "actions": action_counts, "trace_events": trace_events}));
     if tool_errors > 0 { std::process::exit(2); }
 }
 
